@@ -64,13 +64,19 @@ def run_one(dst, h, target_dir, timeout):
 def run(harnesses, repo, workdir, verif, timeout=1500):
     """returns (results, violations).  Raises RuntimeError for tool limits (-> exit 2)."""
     dst = prepare(repo, workdir, harnesses, verif)
-    target_dir = os.path.join(verif, ".cache", "kani-target")
+    # (PGVERIF_KANI_TARGET: a private cargo target directory, for sweeps that run several checks at the same time)
+    target_dir = os.environ.get("PGVERIF_KANI_TARGET") or os.path.join(verif, ".cache", "kani-target")
     os.makedirs(target_dir, exist_ok=True)
     # the first harness builds; the rest run in parallel on the warm target dir
     results = [run_one(dst, harnesses[0], target_dir, timeout)]
     if len(harnesses) > 1:
         with ThreadPoolExecutor(max_workers=4) as ex:
             results += list(ex.map(lambda h: run_one(dst, h, target_dir, timeout), harnesses[1:]))
+    # an infrastructure error (e.g. several cargo-kani builds sharing the target directory at the same moment) is retried once, alone
+    for k, (h, r) in enumerate(zip(harnesses, results)):
+        if r["status"] == "error":
+            time.sleep(5)
+            results[k] = run_one(dst, h, target_dir, timeout)
     viol = []
     for h, r in zip(harnesses, results):
         if r["status"] in ("timeout", "error"):
